@@ -160,6 +160,34 @@ type poly struct {
 	mid    bool     // add the rows/columns midway between consecutive grid levels (strictly inside short walls)
 	light  bool     // small grid / few random points (strata that multiply the number of polygons)
 	noCoq  bool     // oracles only (very many segments: the Coq cases would dominate the quick tier)
+	probe  []qpoint // additional query points with their own stratum (shortedge.go: level with the short edges)
+	capDiv int      // > 0: divide the grid cap / number of random points by this (instead of the `light` factors)
+	closed bool     // hand over the explicitly closed vertex list v0 .. vn-1, v0
+}
+
+// polygonArg returns the vertex list handed to Polygon2D / VertexToLine for the polygon v0 .. vn-1: the open
+// list as a rule, the explicitly closed list v0 .. vn-1, v0 (last == first exactly: no closing edge is to
+// be added) where asked for.  (Until sdfx bf5538d VertexToLine took a last vertex within 1e-9 of the first
+// as "already closed" and left the gap open; open lists with such a closing edge are generated on purpose.)
+func polygonArg(v []v2.Vec, closed bool) []v2.Vec {
+	if closed && v[0] != v[len(v)-1] {
+		return append(append(make([]v2.Vec, 0, len(v)+1), v...), v[0])
+	}
+	return v
+}
+
+// specSegs: the edges of the closed polygon v0 .. vn-1 (v0) straight from the vertex list - consecutive
+// pairs plus the closing edge -, independent of the library (sdf.VertexToLine is part of what is checked:
+// an edge it leaves out or moves must show up against the oracles).  Repeated vertices give no edge.
+func specSegs(v []v2.Vec) []seg {
+	var out []seg
+	for i, a := range v {
+		b := v[(i+1)%len(v)]
+		if a != b {
+			out = append(out, seg{a.X, a.Y, b.X, b.Y})
+		}
+	}
+	return out
 }
 
 func reverse(v []v2.Vec) []v2.Vec {
@@ -887,34 +915,53 @@ func check(c *Ctx, r *Report) error {
 	}
 	polys = append(polys, genPolys(rng, c.Tier)...)
 	polys = append(polys, genNearSplit(rng, c.Tier)...)
+	polys = append(polys, genShortEdges(NewRng(c.Seed^0x5e04ed9e), c.Tier)...) // own stream: the draws of the strata above stay as they were
 
 	gridCap := TierN(c.Tier, 30000, 150000, 120000)
 	nRandom := TierN(c.Tier, 1500, 10000, 6000)
 	coqPts := TierN(c.Tier, 48, 120, 60)
 	pid := 0 // global point id
-	signDis, valDis, certBad := 0, 0, 0
+	signDis, valDis, certBad, buildBad, nExplicit := 0, 0, 0, 0, 0
 	seenKey := map[string]bool{}
+	// collected first and reported at the end, wrong inside/outside answers and refused polygons first (the
+	// report keeps the first 50 and the driver shows the first of them)
+	var collected []Violation
 	violate := func(key, what string, input interface{}) {
 		if !seenKey[key] {
 			seenKey[key] = true
-			r.Violate(key, what, input)
+			if len(collected) < 3000 {
+				collected = append(collected, Violation{Key: key, What: what, Input: input})
+			}
 		}
 	}
 	famCount := map[string]int{}
 
 	for pi, pl := range polys {
-		fast, err := sdf.Polygon2D(pl.v)
-		if err != nil {
-			return fmt.Errorf("%s: %v", pl.name, err)
+		// the specification comes from the vertex list itself, not from what the library makes of it
+		segs := specSegs(pl.v)
+		arg := polygonArg(pl.v, pl.closed)
+		if len(arg) != len(pl.v) {
+			nExplicit++
 		}
-		lines := sdf.VertexToLine(pl.v, true)
+		pname := pl.name + "#" + hash(pl.v)
+		fast, err := sdf.Polygon2D(arg)
+		if err != nil {
+			// a polygon with >= 3 distinct vertices and non-zero edges has an SDF
+			if len(segs) < 3 {
+				return fmt.Errorf("%s: %v", pl.name, err)
+			}
+			buildBad++
+			violate("build-fast:"+pname, fmt.Sprintf("polygon %s (%d vertices, %d edges of non-zero length): Polygon2D returns the error %q instead of a shape", pl.name, len(pl.v), len(segs), err.Error()),
+				map[string]interface{}{"polygon": pl.name, "v": arg})
+			continue
+		}
+		lines := sdf.VertexToLine(arg, true)
 		slow, err := sdf.Mesh2DSlow(lines)
 		if err != nil {
-			return err
-		}
-		segs := make([]seg, len(lines))
-		for i, l := range lines {
-			segs[i] = seg{l[0].X, l[0].Y, l[1].X, l[1].Y}
+			buildBad++
+			violate("build-slow:"+pname, fmt.Sprintf("polygon %s (%d vertices, %d edges of non-zero length): Mesh2DSlow(VertexToLine(v, true)) returns the error %q instead of a shape", pl.name, len(pl.v), len(segs), err.Error()),
+				map[string]interface{}{"polygon": pl.name, "v": arg})
+			continue
 		}
 		root := sdf.VerifQtDump(fast)
 		if root == nil {
@@ -923,7 +970,6 @@ func check(c *Ctx, r *Report) error {
 		ti := &treeInfo{}
 		walk(root, ti)
 		famCount[pl.family]++
-		pname := pl.name + "#" + hash(pl.v)
 
 		// ---- the grid
 		bb := fast.BoundingBox()
@@ -989,9 +1035,13 @@ func check(c *Ctx, r *Report) error {
 		for _, q := range pl.extra {
 			pts = append(pts, qpoint{q, "corpus"})
 		}
+		pts = append(pts, pl.probe...)
 		gridCap, nRandom, coqPts := gridCap, nRandom, coqPts
 		if pl.light {
 			gridCap, nRandom, coqPts = gridCap/8, nRandom/5, coqPts/3
+		}
+		if pl.capDiv > 0 {
+			gridCap, nRandom = gridCap/pl.capDiv, nRandom/pl.capDiv
 		}
 		full := len(xs)*len(ys) <= gridCap
 		if pl.only {
@@ -1050,7 +1100,7 @@ func check(c *Ctx, r *Report) error {
 			boundary bool
 		}
 		var all []obs
-		polyViol := 0
+		polyViol, polyViolSign := 0, 0 // separate budgets: value disagreements must not use up the room for wrong signs
 		for _, q := range pts {
 			f, s := fast.Evaluate(q.p), slow.Evaluate(q.p)
 			wn := exactWinding(segs, q.p.X, q.p.Y)
@@ -1062,14 +1112,14 @@ func check(c *Ctx, r *Report) error {
 			o.boundary = de <= 1e-12*scale
 			key := fmt.Sprintf("%s|%x,%x", pname, q.p.X, q.p.Y)
 			r.Case(pl.family+"/"+q.stratum, key, true)
-			inp := map[string]interface{}{"polygon": pl.name, "v": pl.v, "p": q.p, "fast": f, "slow": s, "exact_winding": wn, "exact_distance": de}
+			inp := map[string]interface{}{"polygon": pl.name, "v": arg, "p": q.p, "fast": f, "slow": s, "exact_winding": wn, "exact_distance": de}
 			neg := func(x float64) bool { return math.Signbit(x) }
 			if !o.boundary {
 				if neg(f) != (wn != 0) {
 					o.bad = true
 					signDis++
-					if polyViol < 12 {
-						polyViol++
+					if polyViolSign < 8 {
+						polyViolSign++
 						violate("sign-fast:"+key, fmt.Sprintf("polygon %s at p=(%v,%v): quadtree Evaluate = %v but the exact crossing number is %d (brute force %v): wrong inside/outside answer",
 							pl.name, q.p.X, q.p.Y, f, wn, s), inp)
 					}
@@ -1077,8 +1127,8 @@ func check(c *Ctx, r *Report) error {
 				if neg(s) != (wn != 0) {
 					o.bad = true
 					signDis++
-					if polyViol < 12 {
-						polyViol++
+					if polyViolSign < 8 {
+						polyViolSign++
 						violate("sign-slow:"+key, fmt.Sprintf("polygon %s at p=(%v,%v): brute-force Evaluate = %v but the exact crossing number is %d",
 							pl.name, q.p.X, q.p.Y, s, wn), inp)
 					}
@@ -1117,7 +1167,7 @@ func check(c *Ctx, r *Report) error {
 		ch, prob := chains(lines, ti.pieces)
 		if prob != "" {
 			certBad++
-			violate("clip:"+pname, "polygon "+pl.name+": "+prob, map[string]interface{}{"polygon": pl.name, "v": pl.v})
+			violate("clip:"+pname, "polygon "+pl.name+": "+prob, map[string]interface{}{"polygon": pl.name, "v": arg})
 			ch = make([][]sdf.Line2, len(lines))
 		}
 		var tb strings.Builder
@@ -1134,7 +1184,7 @@ func check(c *Ctx, r *Report) error {
 		if pl.exact {
 			mode = 1
 		}
-		ctree.Add(fmt.Sprintf("(%d%%N, %d%%N, %d%%N, %s,\n %s,\n %s)", pi+1, mode, sdf.VerifQtMaxLevel, vertsTerm(pl.v), tb.String(), CList(chs)))
+		ctree.Add(fmt.Sprintf("(%d%%N, %d%%N, %d%%N, %s,\n %s,\n %s)", pi+1, mode, sdf.VerifQtMaxLevel, vertsTerm(arg), tb.String(), CList(chs)))
 
 		// ... and evaluation at sampled points (every disagreeing point included)
 		var sel []obs
@@ -1159,12 +1209,25 @@ func check(c *Ctx, r *Report) error {
 			pid++
 			pterms = append(pterms, fmt.Sprintf("(%d%%N, %s, %s, (%s,%s), %s, %s)", pid, CB(k%qEvery == 0 && !pl.only), CB(o.boundary), CF(o.q.p.X), CF(o.q.p.Y), CF(o.f), CF(o.s)))
 		}
-		ceval.Add(fmt.Sprintf("(%s,\n %s,\n %s)", vertsTerm(pl.v), tb.String(), CList(pterms)))
+		ceval.Add(fmt.Sprintf("(%s,\n %s,\n %s)", vertsTerm(arg), tb.String(), CList(pterms)))
 	}
 
 	// ---- build histories in one process (history.go): caller-owned slices re-used after other builds
 	histories(c, r, rng, violate, ctree, ceval, &pid, len(polys)+1000)
 
+	rank := func(k string) int {
+		switch {
+		case strings.HasPrefix(k, "sign-"):
+			return 0
+		case strings.HasPrefix(k, "build-"):
+			return 1
+		}
+		return 2
+	}
+	sort.SliceStable(collected, func(i, j int) bool { return rank(collected[i].Key) < rank(collected[j].Key) })
+	for _, v := range collected {
+		r.Violate(v.Key, v.What, v.Input)
+	}
 	if err := ctree.Write(c.Out); err != nil {
 		return err
 	}
@@ -1176,7 +1239,9 @@ func check(c *Ctx, r *Report) error {
 	r.Coverage["sign_disagreements"] = signDis
 	r.Coverage["value_disagreements"] = valDis
 	r.Coverage["clip_assignment_failures"] = certBad
-	r.Rule = "polygon families (stars incl. the two stars of the earlier repaired defects, convex, rectilinear with collinear/horizontal/vertical edges, combs, thin, 200-gons, shapes with vertices on the quadtree centre lines and with edges lying exactly ON centre and level-2 split lines; both orientations; dyadic, irrational and far-offset coordinates; absolute scale as a dimension: shapes multiplied by 1e-9..1e-3 and 1e3..1e6, facetted outlines with 500..2000 edges of 1e-5..1e-4 length; NEXT TO split lines: star-shaped polygons, staircases and closed lattice loops whose vertices lie 0, +-1..3 ulp, +-1e-12 .. +-2e-9, +-1e-7 from split lines and crossings of split lines of every level, nearly axis-parallel edges crossing many cells, edges through cell corners, at scales 1e-9..1e6, Bezier eggs like examples/bezier egg1) x query points = full grid {vertex and cut-point xs, every quadtree box edge and centre x, bounding box xs, far (10 and 1e6 sizes away)} x {same for y} (rows kept, columns subsampled above the tier's cap), one ulp above/below every vertex level, random points. Oracles per point: sign(quadtree) = sign(brute force) = exact crossing-number sign (rational arithmetic; skipped only where the exact distance is <= 1e-12*scale), | |fast|-|slow| | <= 1e-12 relative + 1e-13*scale, |value| vs exact distance (1e-12 relative + 1e-12*scale). BUILD HISTORIES in one process (history.go): 2..3 caller-owned slots (vertex buffer + []*Line2, with and without spare capacity, segments in polygon order or shuffled) x polygons of 4..400 edges x scripts of Mesh2D / Mesh2DSlow / Polygon2D builds, re-use of a slot for the same and for another polygon, re-evaluation of earlier shapes and alternate evaluation of two live shapes; after every op the caller's data is bit-identical (pointer identity, values, spare capacity), every shape built at any step satisfies the exact oracles and fast = slow and answers bit for bit like the first shape built from the same segments, every earlier shape answers (and dumps) as it did when built; the last quadtree built from a re-used slot of some histories also goes through the model (cases_tree / cases_eval). non-trivial = every case; distinct by polygon hash and exact point bits (histories: history hash, step, point)."
+	r.Coverage["build_errors"] = buildBad
+	r.Coverage["explicitly_closed_vertex_lists"] = nExplicit
+	r.Rule = "polygon families (stars incl. the two stars of the earlier repaired defects, convex, rectilinear with collinear/horizontal/vertical edges, combs, thin, 200-gons, shapes with vertices on the quadtree centre lines and with edges lying exactly ON centre and level-2 split lines; both orientations; dyadic, irrational and far-offset coordinates; absolute scale as a dimension: shapes multiplied by 1e-9..1e-3 and 1e3..1e6, facetted outlines with 500..2000 edges of 1e-5..1e-4 length; NEXT TO split lines: star-shaped polygons, staircases and closed lattice loops whose vertices lie 0, +-1..3 ulp, +-1e-12 .. +-2e-9, +-1e-7 from split lines and crossings of split lines of every level, nearly axis-parallel edges crossing many cells, edges through cell corners, at scales 1e-9..1e6, Bezier eggs like examples/bezier egg1; VERY SHORT EDGES (shortedge.go): edge length / extent in {1e-9, 1e-10, 1e-12, a few ulp} x extent in {1e-3, 1, 1e3, 1e6} x {jog = a wall with a step of that size in 8 directions, one / several / all corners chamfered at that distance (almost coincident vertices), two almost coincident vertices on an edge, jog + split} on 8 base shapes, the vertex list starting anywhere so that the short edge is also the first, the last and the CLOSING edge of the list; TINY polygons 1e-10 .. 1e-15 across at the origin and 1e-11 .. 1e-9 across at offsets ~1 and ~1e3; with extra query points on the levels of both ends of every short edge, midway and one ulp above/below, 10 and 1e6 extents to the left and right, inside the extent and 1..1000 edge lengths away, and around the short edge itself) x query points = full grid {vertex and cut-point xs, every quadtree box edge and centre x, bounding box xs, far (10 and 1e6 sizes away)} x {same for y} (rows kept, columns subsampled above the tier's cap), one ulp above/below every vertex level, random points. The specification is computed from the VERTEX LIST (consecutive pairs + closing edge, no tolerance), not from what sdf.VertexToLine returns; a polygon with >= 3 non-zero edges that Polygon2D / Mesh2DSlow refuses is a violation. Open vertex lists as a rule (closing edges of any length, also far below 1e-9), the explicitly closed list v0 .. vn-1, v0 for every third polygon of the short-edge and tiny strata. Oracles per point: sign(quadtree) = sign(brute force) = exact crossing-number sign (rational arithmetic; skipped only where the exact distance is <= 1e-12*scale), | |fast|-|slow| | <= 1e-12 relative + 1e-13*scale, |value| vs exact distance (1e-12 relative + 1e-12*scale). BUILD HISTORIES in one process (history.go): 2..3 caller-owned slots (vertex buffer + []*Line2, with and without spare capacity, segments in polygon order or shuffled) x polygons of 4..400 edges x scripts of Mesh2D / Mesh2DSlow / Polygon2D builds, re-use of a slot for the same and for another polygon, re-evaluation of earlier shapes and alternate evaluation of two live shapes; after every op the caller's data is bit-identical (pointer identity, values, spare capacity), every shape built at any step satisfies the exact oracles and fast = slow and answers bit for bit like the first shape built from the same segments, every earlier shape answers (and dumps) as it did when built; the last quadtree built from a re-used slot of some histories also goes through the model (cases_tree / cases_eval). non-trivial = every case; distinct by polygon hash and exact point bits (histories: history hash, step, point)."
 	r.Trusted = append(r.Trusted,
 		"hand model coq/Sdf/Poly.v tied by differential execution at FOps: the model of Mesh2D/qtBuild/lineIntersect/lineClip (math.Nextafter = C04Corr.fnextafter) rebuilds the dumped quadtree of every tested polygon bit for bit; eval_fast on the dumped tree and eval_slow on the segments reproduce Evaluate (sign exactly, value within fclose; absolute 2^-40*scale on the boundary)",
 		"quadtree dump hook sdf/verif_hooks_c04.go (copies the private fields)",
